@@ -73,7 +73,9 @@ class SmoothKL(nn.Module):
     def g(self, t, y):
         y = y.contiguous()
         if self.noise_type == "diagonal":
-            return 0.7 + 0.3 * torch.sin(self.a * y + self.c + t)
+            # bounded away from zero, with NEGATIVE entries in every second channel (g and -g give the same law)
+            sgn = torch.tensor([1.0 if i % 2 == 0 else -1.0 for i in range(self.d)], dtype=y.dtype)
+            return sgn * (0.7 + 0.3 * torch.sin(self.a * y + self.c + t))
         if self.noise_type == "additive":
             return ((self.G0 + torch.sin(t) * self.G1) * self.col).unsqueeze(0).expand(y.size(0), self.d, self.m)
         # scalar / general: state dependent, a perturbation of a full-column-rank matrix
